@@ -74,6 +74,14 @@ CLAIMED = {
          "For every argument type a random value is rendered in each documented JSON encoding and from_json must return exactly that value; listed ill-formed shapes must be refused; random JSON against every type and random / corrupted resolve requests (10 envelope corruptions, parameters split between args and env, undeclared extras) must return Ok or Err, and on Ok the argument map must equal the declared subset of args + env coerced by the declared types. Held = no miscoercion, acceptance of an ill-formed value, dropped / extra key or panic on any generated document.",
          "values are sampled (i128 boundary set, byte strings up to 100 bytes, all Shelley address kinds); a key is never placed in both args and env; transaction-id length is not policed because the statement does not",
          "DESIGN.md section 3 C16"),
+ "C17": ("exploration", "runtime monitor: the real tx3c binary is run per generated program; the emitted TII is read back and confronted with find_params of the decoded embedded IR (name-agreement oracle), with lower() computed in-process (canonical equality), and with a request assembled from exactly the declared keys (closure oracle through parse_resolve_request + apply_args)",
+         "Generated programs with parameters, env vars and parties re-spelled in lower / UPPER / mixed case, unused declarations, policies of every form, optional profile flags and dotfiles, and (collision phase) two declared names made equal up to case are compiled by the real CLI; for every tx the embedded envelope must decode to the lowered IR, every key the IR requires must be declared under the identical spelling in exactly one section with no other declared key equal to it up to case, and a client supplying precisely the declared keys (typed by the declared schemas) must get every required key through parse_resolve_request with its value and close all value parameters. Held = no spelling / undeclared / collision / closure disagreement on any emitted file.",
+         "a program accepted in-process but refused by tx3c is inconclusive (no file to judge); parameters of record / list / map type are not supplied; a parameter shadowing an env var of the same spelling is judged by the closure oracle only",
+         "DESIGN.md section 3 C17"),
+ "C18": ("exploration", "runtime monitor: offline checker over recorded histories of artifacts - the set of distinct byte strings per (source, tx) over 20 in-process repetitions, 3 fresh processes (new hash seeds) and 3 runs of the real tx3c binary must be a singleton; differences are located by a parallel walk of the two CBOR / JSON documents",
+         "All example programs of the repository and generated programs weighted towards chain-specific directives with several fields are parsed, analysed, lowered and encoded 20 times in one process and once in each of 3 fresh processes, and their TII file is produced 3 times by the real CLI (distinct output paths, one run from a copy in another directory, 0-2 profile flags, optional dotfile, some histories spanning more than a second); every artifact must be one byte string. Held = singleton sets on every history.",
+         "hash seeds are sampled (20 maps per process + 3 processes), not enumerated: an order-dependent encoding of a map with k entries escapes one comparison with probability about 1/k!; machine-dependent inputs other than path, time and hash seeds (locale, environment variables) are not varied",
+         "DESIGN.md section 3 C18"),
  "C15": ("exploration", "runtime monitor: algebraic-law oracle + BigInt-style reference map over exhaustive small space and random values",
          "Every pair (and, for associativity, triple) of representations of values over 3 asset classes with amounts in -2..2 is enumerated completely and checked against the group laws with the code's own ==, against a reference map, and against the definitions of the predicates; random values extend this to the i128 range and arbitrary class names. Held = no law failed on any enumerated or sampled execution.",
          "trusts the harness' reference arithmetic (checked i128 over a BTreeMap) and ciborium for building values with explicit zero entries; classes in non-normal form (empty policy / empty name given directly to from_class_and_amount) are only fed through the normalising constructors",
@@ -98,7 +106,7 @@ for p in props:
         "technique": tech,
     })
 
-na = [{"property_id": p["id"], "reason": "check not built yet (work in progress, see DESIGN.md section 3)"}
+na = [{"property_id": p["id"], "reason": "not claimed (see DESIGN.md)"}
       for p in props if p["id"] not in CLAIMED]
 
 m = {
